@@ -170,6 +170,7 @@ package dagjson
 //@   after NewEncoder assume jEnc(n.val, iface(result0, "shared.TokenSink").pos)
 //@   before Marshal assert[C04] carg2 == cfg && carg0 == n
 //@ func Decode(na, r) (err)
+//@   requires na != nil && r != nil && r.teesink == nil
 //@   before Decode assert[C04] carg0.ParseLinks && carg0.ParseBytes
 
 // ---- C06: a successful decode has consumed the block to its end (only white space may follow the value) ----
